@@ -516,6 +516,11 @@ def any_shape(v):
     return "VAtom"
 
 
+def is_wrapper(v):
+    from typedpy.fields.collections_impl import _ListStruct, _DictStruct, _DequeStruct
+    return isinstance(v, (_ListStruct, _DictStruct, _DequeStruct))
+
+
 def shape_of(t, v, spec, deser):
     """Gallina vshape of the argument object v handed to a field of type t."""
     k = t[0]
@@ -525,6 +530,13 @@ def shape_of(t, v, spec, deser):
         return any_shape(v)
     if k == "opt":
         return shape_of(t[1], v, spec, deser)
+    if is_wrapper(v) and k in ("arr", "arrpos", "deque", "map"):
+        # the live value of another instance's field (a donor): elements read off the base container
+        elems = list(dict.values(v)) if isinstance(v, dict) else list(list.__iter__(v)) if isinstance(v, list) \
+            else list(collections.deque.__iter__(v))
+        if k == "arrpos":
+            return "(VWrapper %s)" % E.lst([shape_of(x, y, spec, deser) for x, y in zip(t[1], elems)])
+        return "(VWrapper %s)" % E.lst([any_shape(x) if t[1] is None else shape_of(t[1], x, spec, deser) for x in elems])
     if k in ("arr", "deque", "set"):
         con = "VDeque" if isinstance(v, collections.deque) else "VFrozenset" if isinstance(v, frozenset) else \
             "VSet" if isinstance(v, set) else "VList"
@@ -995,6 +1007,194 @@ def run_mutator(spec, doc, extra):
     return out, src
 
 
+# ---- donors: the value handed over is the LIVE value of a collection field of another instance
+
+COLLECTION_KINDS = ("arr", "arrpos", "map", "deque")
+DONOR_ENTRIES = {"same": ["ctor", "setattr", "clone", "cast_to", "from_other_class", "deser", "ctor-inner", "mutator-inner"],
+                 "immstruct": ["ctor", "from_other_class", "deser", "ctor-inner"],
+                 "immfield": ["ctor", "from_other_class", "deser", "ctor-inner"]}
+DONOR_TYPES = [["arr", ["arr", ["int"]]], ["arr", ["map", ["int"]]], ["map", ["arr", ["int"]]], ["map", ["map", ["str"]]],
+               ["arr", ["arr", ["arr", ["int"]]]], ["deque", ["arr", ["int"]]], ["arr", ["deque", ["int"]]],
+               ["arrpos", [["arr", ["int"]], ["int"]]], ["arr", ["tuple", [["arr", ["int"]], ["int"]]]],
+               ["opt", ["arr", ["arr", ["int"]]]], ["arr", ["struct", [["arr", ["int"]]]]],
+               ["arr", ["arr", ["any"]]], ["arr", None], ["map", None], ["arr", ["int"]]]
+
+
+def coll_kind(t):
+    return t[1][0] if t[0] == "opt" else t[0]
+
+
+def deser_plain_type(t):
+    """Types whose constructor-form value is also an acceptable document (no tuple / set / deque / instance inside)."""
+    if t is None or t[0] in SCALARS or t[0] == "any":
+        return True
+    if t[0] in ("arr", "map", "opt"):
+        return deser_plain_type(t[1])
+    if t[0] == "arrpos":
+        return all(deser_plain_type(x) for x in t[1])
+    return False
+
+
+def donor_spec(spec):
+    return ClassSpec(spec.name + "_D", "fast" if spec.kind == "fast" else "plain", spec.fields)
+
+
+def receiver_spec(dspec, receiver):
+    if receiver == "same":
+        return dspec
+    if receiver == "immstruct":
+        return ClassSpec(dspec.name[:-2] + "_RS", "immutable", dspec.fields)
+    return ClassSpec(dspec.name[:-2] + "_RF", "plain", dspec.fields,
+                     immfields=[f for f, t in dspec.fields if t[0] in IMM_ELIGIBLE])
+
+
+def raw_items(w):
+    if isinstance(w, dict):
+        return dict(dict.items(w))
+    if isinstance(w, collections.deque):
+        return collections.deque(collections.deque.__iter__(w))
+    return list(list.__iter__(w))
+
+
+def mutate_wrapper_api(o):
+    """An in-place update of a field value through ITS OWN public mutators (other.rows[0].append(x)): the element added
+    is a copy of one that is already there, so that validation accepts it.  Returns False when the wrapper refuses."""
+    try:
+        if isinstance(o, dict):
+            vals = list(dict.values(o))
+            if not vals:
+                return False
+            o["zz%d" % len(vals)] = copy.deepcopy(decay(vals[0]))
+        else:
+            elems = raw_items(o)
+            if not elems:
+                return False
+            o.append(copy.deepcopy(decay(elems[0])))
+        return True
+    except Exception:  # noqa
+        return False
+
+
+def decay(v):
+    """Plain-container copy of a (possibly wrapper) value."""
+    if is_struct(v):
+        return v
+    if isinstance(v, dict):
+        return {k: decay(x) for k, x in dict.items(v)}
+    if isinstance(v, collections.deque):
+        return collections.deque(decay(x) for x in collections.deque.__iter__(v))
+    if isinstance(v, list):
+        return [decay(x) for x in list.__iter__(v)]
+    if isinstance(v, tuple):
+        return tuple(decay(x) for x in v)
+    return v
+
+
+def probe_donor(objs_by_field, fp, types, spec, receiver_owner):
+    """Update, through their own mutators, every wrapper reachable from the given field values (outer and inner);
+    plain containers found at untyped positions are mutated as usual.  {field: [paths whose update changed fp]}."""
+    base = fp()
+    hits = {}
+    for fname, obj in objs_by_field.items():
+        for c, path in containers(obj, types.get(fname), spec):
+            if is_wrapper(c):
+                if not mutate_wrapper_api(c):
+                    continue
+            else:
+                mutate(c)
+            now = fp()
+            if now != base:
+                hits.setdefault(fname, []).append(("Immutable" + path) if receiver_owner == "immfield" else path)
+                base = now
+    return hits
+
+
+def run_donor(entry, receiver, dspec, doc):
+    """Build a donor instance, hand the live values of its collection fields to `entry` of the receiver class, then update
+    inner elements through the donor (must not reach the receiver) and through the receiver (must not reach the donor).
+    Returns {field: [written, shared, paths, shape]}, extras, python source."""
+    from typedpy import Deserializer
+    rspec = receiver_spec(dspec, receiver)
+    dcls, dns, dsrc = realize(dspec)
+    if rspec is dspec:
+        rcls, rns, rsrc = dcls, dns, ""
+    else:
+        rcls, rns, rsrc = realize(rspec)
+        rsrc = rsrc[len(IMPORTS):]
+    ts = dict(dspec.fields)
+    y = dcls(**kwargs_of(dspec, dns, doc))
+    fs = [f for f in doc if coll_kind(ts[f]) in COLLECTION_KINDS and getattr(y, f, None) is not None]
+    foreign = [] if rspec is dspec else [f for f, t in dspec.fields if "struct" in json.dumps(t)]
+    fs = [f for f in fs if f not in foreign]      # a twin class has its own nested classes: the donor's instances do not fit
+    if entry == "deser":
+        fs = [f for f in fs if deser_plain_type(ts[f])]
+    if entry in ("ctor-inner", "mutator-inner"):
+        fs = [f for f in fs if ts[f][0] in ("arr", "map") and ts[f][1] is not None and ts[f][1][0] in COLLECTION_KINDS]
+    if not fs:
+        return None, [], dsrc + rsrc
+    args = {f: getattr(y, f) for f in fs}
+    if entry in ("ctor-inner", "mutator-inner"):
+        given = {f: raw_items(args[f]) for f in fs}          # a new outer list / dict holding the donor's inner wrappers
+    else:
+        given = args
+    deser = entry == "deser"
+    res = {f: [False, False, [], shape_of(ts[f], given[f], dspec, deser)] for f in fs}
+    before = {f: snap(args[f]) for f in fs}
+    ref_y = copy.deepcopy(y)
+    yfp0 = inst_fp(y, ref_y)
+    fresh = kwargs_of(rspec, rns, doc)
+    extras = []
+    if entry in ("ctor", "ctor-inner"):
+        x = rcls(**dict(fresh, **given))
+    elif entry == "setattr":
+        x = rcls(**fresh)
+        for f in fs:
+            setattr(x, f, given[f])
+    elif entry == "mutator-inner":
+        x = rcls(**fresh)
+        for f in fs:
+            if isinstance(given[f], dict):
+                getattr(x, f).update({"dn" + k: v for k, v in given[f].items()})
+            else:
+                getattr(x, f).extend(given[f])
+    elif entry == "clone":
+        x = y.shallow_clone_with_overrides()
+    elif entry == "cast_to":
+        x = y.cast_to(rcls)
+    elif entry == "from_other_class":
+        x = rcls.from_other_class(y, ignore_props=foreign, **{f: fresh[f] for f in foreign if f in fresh})
+    elif entry == "deser":
+        d = decode(doc)
+        d.update(given)
+        x = Deserializer(rcls).deserialize(d)
+    else:
+        raise ValueError(entry)
+    for f in fs:
+        if snap(args[f]) != before[f]:
+            res[f][0] = True
+    if inst_fp(y, ref_y) != yfp0:
+        extras.append(("writes-arg/donor:%s/donor-instance" % entry, "handing over the donor's field values changed the donor"))
+    ref_x = copy.deepcopy(x)
+    own = {f: rspec.owner(f) for f in fs}
+    # donor -> receiver
+    for f in fs:
+        hits = probe_donor({f: args[f]}, lambda: inst_fp(x, ref_x), ts, dspec, own[f])
+        for p_ in hits.get(f, []):
+            res[f][1] = True
+            res[f][2].append(("donor-to-receiver", p_))
+    # receiver -> donor (a receiver whose wrappers refuse updates cannot be used that way)
+    ref_y2 = copy.deepcopy(y)
+    for f in fs:
+        val = x.__dict__.get(f)
+        if val is None:
+            continue
+        hits = probe_donor({f: val}, lambda: inst_fp(y, ref_y2), ts, dspec, own[f])
+        for p_ in hits.get(f, []):
+            res[f][1] = True
+            res[f][2].append(("receiver-to-donor", p_))
+    return res, extras, dsrc + rsrc
+
+
 def run_failing(op, spec, doc, bad_field, bad_value):
     """Constructing / deserializing an invalid input: must raise, and must leave every argument as it was."""
     from typedpy import Deserializer
@@ -1392,6 +1592,23 @@ def replay(obj):
                 bad += 1
         print("required: the element handed to the mutator equals its snapshot, and mutating it afterwards does not change the instance (typed elements)")
         return 1 if bad else 0
+    if kind == "donor":
+        dspec = ClassSpec.from_json(obj["spec"])
+        res, extras, src = run_donor(obj["entry"], obj["receiver"], dspec, obj["doc"])
+        print(src)
+        print("donor y built from (document form):", obj["doc"])
+        print("entry point:", obj["entry"], " receiver:", obj["receiver"], "(x = ...(f=y.f) / x.f = y.f / y.shallow_clone_with_overrides() / ...)")
+        bad = 0
+        ts = dict(dspec.fields)
+        rspec = receiver_spec(dspec, obj["receiver"])
+        for f, (w, r, paths, shape) in (res or {}).items():
+            print("field %-4s %-44s written=%s shared=%s %s" % (f, json.dumps(ts[f]), w, r, paths))
+            if (w or r) and (typed_inside(ts[f]) or rspec.owner(f) != "plain"):
+                bad += 1
+        for k, what in extras:
+            print("FAILS:", k, "-", what)
+        print("required: after the call, updating an element of y.f through y (y.f[0].append(e)) does not change x, and vice versa")
+        return 1 if bad or extras else 0
     if kind == "versioned":
         res, extras, src = run_versioned(obj["immutable"], obj["doc"], obj["api"])
         print(src)
@@ -1606,6 +1823,62 @@ def run(rep, tier):
                     rep.finding("C19/retains-arg/%s/%s" % (site, p_),
                                 "mutating the element handed to %s afterwards changed the instance (%s kept by reference)" % (site, p_),
                                 dict(desc, python=py))
+    # donors: live field values of another instance handed to every entry point that accepts a value
+    dplan = []
+    for spec, doc, ops in plan[:nrandom]:
+        if not any(coll_kind(t) in COLLECTION_KINDS for f, t in spec.fields if f in doc):
+            continue
+        dspec = donor_spec(spec)
+        for receiver in ("same", "same", "immstruct", "immfield"):
+            dplan.append((rnd.choice(DONOR_ENTRIES[receiver]), receiver, dspec, doc))
+    di = 0
+    for t in DONOR_TYPES:
+        for receiver, entries in DONOR_ENTRIES.items():
+            for entry in entries:
+                di += 1
+                dspec = ClassSpec("C19n%d_%d_D" % (core.seed(), di), "fast" if di % 5 == 0 else "plain", [("f0", ["int"]), ("f1", t)])
+                dplan.append((entry, receiver, dspec, {"f0": 3, "f1": gen_doc(rnd, t, dspec)}))
+    for entry, receiver, dspec, doc in dplan:
+        desc0 = {"kind": "donor", "spec": dspec.to_json(), "doc": doc, "entry": entry, "receiver": receiver}
+        try:
+            res, extras, src = run_donor(entry, receiver, dspec, doc)
+        except Exception as e:  # noqa
+            rep.stat("donor", "harness-error:" + type(e).__name__)
+            rep.broken("generator:donor", "entry %s (receiver %s) raised %s: %s on the live field values of a valid donor"
+                       % (entry, receiver, type(e).__name__, e), desc0)
+            continue
+        if res is None:
+            rep.stat("donor", "not-applicable")
+            continue
+        ts = dict(dspec.fields)
+        rspec = receiver_spec(dspec, receiver)
+        for f, (w, r, paths, shape) in res.items():
+            t = ts[f]
+            own = rspec.owner(f)
+            inside = typed_inside(t) or own != "plain"
+            rep.count("donor", 1, (entry, receiver, json.dumps(t), shape))
+            rep.stat("donor", "entry:" + entry)
+            rep.stat("donor", "receiver:" + receiver)
+            rep.stat("donor", "scope:" + ("typed" if typed_inside(t) else "untyped-in-immutable-owner" if inside else "untyped-by-design"))
+            rep.stat("donor", "nesting:%d" % json.dumps(t).count("["))
+            opid = "ODeser" if entry == "deser" else "OSetattr" if entry == "setattr" else "OCtor"
+            desc = dict(desc0, field=f, observed=[w, r, False], detail=paths, py_violates=inside and (w or r))
+            add_case("(CIntake %s %s %s %s %s)" % (opid, OWNER[own], emit_aty(t), shape, obs_lit(w, r, False)), desc)
+            if not inside:
+                continue
+            py = src + "\n# donor y built from %r; entry point %s, receiver %s\n" % (doc, entry, receiver)
+            if w:
+                rep.finding("C19/writes-arg/donor:%s->%s/%s" % (entry, receiver, label(t)), "%s modified the donor's field value" % entry, dict(desc, python=py))
+            for direction, p_ in paths:
+                if direction == "donor-to-receiver":
+                    rep.finding("C19/retains-arg/donor:%s->%s/%s" % (entry, receiver, p_),
+                                "updating an element of the donor's field through the donor afterwards changed the receiver (%s shared)" % p_,
+                                dict(desc, python=py))
+                else:
+                    rep.finding("C19/shares-with-donor/%s->%s/%s" % (entry, receiver, p_),
+                                "updating an element of the receiver's field changed the donor (%s shared)" % p_, dict(desc, python=py))
+        for k, what in extras:
+            rep.finding("C19/" + k, what, dict(desc0, python=src))
     rep.sample({"class": plan[0][0].source(), "document": plan[0][1], "operations": plan[0][2]})
     rep.sample({"class": plan[nrandom + 30][0].source(), "document": plan[nrandom + 30][1], "operations": plan[nrandom + 30][2]})
     rep.cov["streams"].setdefault("lattice", {})["classes"] = len(plan) - nrandom
